@@ -376,15 +376,16 @@ impl Stream for Fault {
                 let codec = i % 8 == 5;
                 let calls = if codec { codec_scenario(&mut r) } else { write_scenario(&mut r, base.as_ref()) };
                 let (_, n, _, _) = run_write(&calls, None);
-                // codec scenarios are judged by the oracle alone (op fault.writec): when the fault hits the encoder's
-                // final flush, flate2's / bzip2's destructor retries the write on the error path (one more I/O call,
-                // the compressed bytes reach the sink after all) - the model's `switchTo` does not describe that
-                // retry (M2, DESIGN R8); the property itself (an error is reported, or the result is identical) is
-                // checked on the implementation
-                let op = if codec { "fault.writec" } else { "fault.write" };
+                // codec scenarios carry the codec tables (as `make_line` of the write stream builds them): the model
+                // describes the encoder destructor's retry on the error path (`Model.emitFinish`, M2), so outcomes,
+                // sink bytes and call counts are compared exactly for every fault index
+                let tables = if codec {
+                    let ro = super::write::run_calls(&calls, &[]);
+                    format!(" comp={} zc={}", if ro.comp.is_empty() { "-".into() } else { ro.comp.join(";") }, if ro.zc.is_empty() { "-".into() } else { ro.zc.join(";") })
+                } else { String::new() };
                 let kind = if codec { "writec" } else { "write" };
-                g.push(&format!("{kind}.free"), format!("{op} calls={} k=none", calls.join(";")));
-                for k in 0..n { g.push(&format!("{kind}.k"), format!("{op} calls={} k={k}", calls.join(";"))); }
+                g.push(&format!("{kind}.free"), format!("fault.write calls={}{tables} k=none", calls.join(";")));
+                for k in 0..n { g.push(&format!("{kind}.k"), format!("fault.write calls={}{tables} k={k}", calls.join(";"))); }
             }
         }
         g
